@@ -23,6 +23,7 @@ TBasis ==
     /\ \A i \in 1..3 : /\ Ev.cmp[i].dF >= 9              \* same phase-space function
                        /\ Ev.cmp[i].dDeltas >= 9         \* same moments
                        /\ Ev.cmp[i].dTrunc >= 6          \* same truncation estimate (basis-free quantity)
+    /\ Ev.bgUntouched                                    \* the ONE background object handed to all four solvers came out as it went in
 
 \* errors are logged in centi-digits (100 * -log10 relative error): second-order finite differences
 \* gain 60 centi-digits per doubling of M; demand at least 35, and a visible overall gain
